@@ -74,6 +74,9 @@ def run(tier, seed):
         expect('SumGrader different sum', ('perturbed summand', eo), verdict(g, ['1', '6', 'x*k^2+1', 'k']), False)
         expect('SumGrader errors', ('non-integer limit', eo), verdict(g, ['1.5', '6', 'x*k^2', 'k']), 'SummationError')
         expect('SumGrader errors', ('complex limit', eo), verdict(g, ['1+i', '6', 'x*k^2', 'k']), 'SummationError')
+        # a non-integer limit is refused whatever the other limit is (also when it is infinite, on either side)
+        for lims in (['3/2', 'infty'], ['-infty', '5/2'], ['6', '1.5'], ['infty', '0.5'], ['2.5', '-infty']):
+            expect('SumGrader errors', ('non-integer limit with other limit', tuple(lims), eo), verdict(g, lims + ['x/2^k', 'k']), 'SummationError')
         expect('SumGrader errors', ('variable with a meaning', eo), verdict(g, ['1', '6', 'x*x^2', 'x']), 'SummationError')
         expect('SumGrader errors', ('blank field', eo), verdict(g, ['1', '', 'x*k^2', 'k']), 'MissingInput')
     # descending limits of different parity, with parity restriction: same integers as ascending
@@ -95,6 +98,8 @@ def run(tier, seed):
     expect('SumGrader instructor vars', 'student uses c', verdict(g, ['c*n']), 'UndefinedVariable')
     g = SG(answers={'lower': '1.5', 'upper': '4', 'summand': 'n', 'summation_variable': 'n'}, input_positions={'summand': 1})
     expect('SumGrader author error', 'non-integer author limit', verdict(g, ['n']), 'ConfigError')
+    g = SG(answers={'lower': '3/2', 'upper': 'infty', 'summand': '1/2^n', 'summation_variable': 'n'}, input_positions={'summand': 1})
+    expect('SumGrader author error', 'non-integer author limit with an infinite upper limit', verdict(g, ['1/2^n']), 'ConfigError')
     # percentage tolerance is relative to the author's value
     g = SG(answers={'lower': '1', 'upper': '4', 'summand': 'n', 'summation_variable': 'n'}, tolerance='10%', input_positions={'summand': 1})
     expect('SumGrader tolerance', '11.04 vs 10 @10%', verdict(g, ['n*1.104']), False)
